@@ -250,7 +250,8 @@ def write_evidence(prop, tier, seed, agg, samples, wall, violations, known_hits,
         'tables': agg['tables'],
         'fault_kinds_fired': agg['faults'],
         'probes': agg['probes'],
-        'probes_unreached': [p for p in PROBES_EXPECTED.get(prop, ()) if not agg['probes'].get(p)],
+        'probes_unreached': [p for p in expected_probes(prop, agg['probes'])
+                             if not agg['probes'].get(p)],
         'distinct_sync_trace_digests': distinct,
         'distinct_barrier_window_orderings': len(agg['windows']),
         'tasks_planned': ntasks,
@@ -298,9 +299,23 @@ def write_evidence(prop, tier, seed, agg, samples, wall, violations, known_hits,
         json.dump(ev, f, indent=1, ensure_ascii=False, sort_keys=False)
 
 
+EVENT_RENDEZVOUS_PROBES = ('early_pass', 'late_waiter', 'stale_arrival')
+BARRIER_RENDEZVOUS_PROBES = ('rearrival_before_drain', 'main_trips_barrier', 'main_arrives_first')
+
+
+def expected_probes(prop, seen):
+    """The rendezvous probes that apply depend on what the tree under test synchronises with: the
+    flag-based ones are structurally zero on a tree that uses a threading.Barrier and vice
+    versa."""
+    base = PROBES_EXPECTED.get(prop, ())
+    if prop != 'C09':
+        return base
+    rv = BARRIER_RENDEZVOUS_PROBES if seen.get('barrier_trips') else EVENT_RENDEZVOUS_PROBES
+    return rv + base
+
+
 PROBES_EXPECTED = {
-    'C09': ('early_pass', 'late_waiter', 'stale_arrival', 'passed_out_then_played',
-            'played_then_passed_out', 'dummy_on_lead'),
+    'C09': ('passed_out_then_played', 'played_then_passed_out', 'dummy_on_lead'),
     'C08': ('passed_out', 'redoubled', 'doubled', 'dummy_on_lead'),
     'C10': ('dummy_on_lead', 'passed_out'),
     'C11': ('dummy_on_lead', 'passed_out', 'redoubled'),
